@@ -39,7 +39,11 @@ func TestEnum(t *testing.T) {
 		}
 		paths := Paths(depth)
 		for _, kind := range kindsFor(disk) {
-			for _, p := range paths {
+			sibDepth := 3
+			if hx.Thorough() {
+				sibDepth = depth - 1
+			}
+			for _, p := range append(append([]string{}, paths...), PathsSib(sibDepth, SibOf(kind))...) {
 				idx++
 				if idx%n != sh {
 					continue
@@ -59,7 +63,7 @@ func TestEnum(t *testing.T) {
 
 func itoa(i int) string { return string(rune('0' + i)) }
 
-var segAlpha = []string{"in", "out", ".", "..", "", "in", "..", "new", "v", "w"}
+var segAlpha = []string{"in", "out", ".", "..", "", "in", "..", "new", "v", "w", "vx", "wx", ".."}
 
 func genPath(rt *rapid.T, maxSeg int) string {
 	n := 1 + hx.Uniform(rt, maxSeg, "nseg")
